@@ -416,7 +416,8 @@ def uninterpreted_raw(kind, w, o):
             return out
         if kind.style == "id3" and isinstance(t, dict) and t.get("version") == 4:
             from mutagen.id3 import Frames
-            return [f for f in t["frames"] if f[0] not in Frames]
+            # unknown frame ids, and frames of any id with the (unsupported) encryption flag
+            return [f for f in t["frames"] if f[0] not in Frames or f[1] & 0x0004]
     except Exception:
         return []
     return []
